@@ -210,7 +210,7 @@ UNREAD = "(self._rbuf.content[self._rbuf.pos:] + self.wire)"
 contract(
     prop=["C19"], file=F, func="ReceivableProtocol.read",
     params={"self": "obj:ReceivableProtocol", "size": "int"}, modifies=['self._rbuf', 'self.wire'], returns="bytes",
-    requires=["size > 0", "self._rbuf.pos <= len(self._rbuf.content)"],
+    requires=["size >= 0", "self._rbuf.pos <= len(self._rbuf.content)"],
     ensures=[
         f"result == {UNREAD0}[:size]",
         f"{UNREAD} == {UNREAD0}[len(result):]",
@@ -242,4 +242,16 @@ contract(
         f"len(result) >= 1 or len({UNREAD0}) == 0",
         "self._rbuf.pos <= len(self._rbuf.content)",
     ],
+)
+
+
+# Refinement: ReceivableProtocol passes its own read() to Protocol as the transport read callable, so the
+# concrete method must accept everything the abstract Protocol.read contract promises callers they may ask
+# for (n >= 0, e.g. read(0) for the empty payload of a "0004" packet) and deliver what it promises.
+lemma(
+    prop=["C19"], name="receivable_read_refines_protocol_read", file=F,
+    forall={"p": "obj:ReceivableProtocol", "n": "int"},
+    assume=["n >= 0", "p._rbuf.pos <= len(p._rbuf.content)"],
+    steps=[("unread0", "p._rbuf.content[p._rbuf.pos:] + p.wire"), ("got", (F, "ReceivableProtocol.read"), ["p", "n"])],
+    show=["got == unread0[:n]", "p._rbuf.content[p._rbuf.pos:] + p.wire == unread0[len(got):]"],
 )
